@@ -116,6 +116,12 @@ class Peer:
             self.q.append([now, a["full"] + a["exc"]])
         elif name == "wrongthenown":       # a short frame of another unit, then the own (exception) reply, in one burst
             self.q.append([now, a["wrong_short"] + a["exc"]])
+        elif name == "barefc":             # well-framed reply that carries only the function code
+            self.q.append([now, a["barefc"]])
+        elif name == "truncbc":            # well-framed reply cut right after its byte count / first data byte
+            self.q.append([now, a["truncbc"]])
+        elif name == "unknownfc":          # well-framed reply with a function code no response class has
+            self.q.append([now, a["unknownfc"]])
         elif name == "twobad":             # a good frame followed by one the decoder rejects
             self.q.append([now, a["full"] + a["bad"]])
         else:
@@ -555,6 +561,9 @@ class Rig:
                 "stale_fc": bf.buildPacket(RawMsg(tid, unit, other_pdu(fc))),
                 "bad": bf.buildPacket(RawMsg(tid, unit, b"\x60\x01")),
                 "wrong_short": bf.buildPacket(RawMsg(tid, wu, other_pdu(fc))),
+                "barefc": bf.buildPacket(RawMsg(tid, unit, pdu[:1])),
+                "truncbc": bf.buildPacket(RawMsg(tid, unit, pdu[:2])),
+                "unknownfc": bf.buildPacket(RawMsg(tid, unit, bytes([0x41]) + pdu[1:])),
             }
         self.peer.reply_for = reply_for
         self.last_full_frame = reply_for(b"\0\0")["full"]
